@@ -25,7 +25,7 @@
      plain OS thread  the default agent of execution_base/src/this_thread.cpp as it is: resume WAITS until
                     the target is not running; sleep_until never marks the thread as not running.     *)
 From Coq Require Import List NArith Bool Arith.
-From Pika Require Import Base.Conc Base.Agent.
+From Pika Require Import Base.Conc Base.Agent Gen.GenTimedPred.
 Import ListNotations.
 
 Inductive cv_op :=
@@ -60,6 +60,9 @@ Inductive cv_pc :=
                                          should_stop = timeout || stop_requested(); then unlock I *)
   | CLockU (sg : bool)                (* re-lock U; sg = the entry had been cleared by a notifier
                                          (timed stop wait: sg = not should_stop) *)
+  | CPredRet                          (* timed predicate forms, the inner wait reported timeout (timed stop wait:
+                                         should_stop) and U is re-acquired: `return pred();` — the expression is
+                                         regenerated from the header (Gen/GenTimedPred.v) *)
   | NLockI (all : bool) (reps : nat) (il : bool)   (* notify: lock I; il = callback run inline by a stop-token waiter *)
   | NPop (all : bool) (reps : nat) (il : bool)
   | NRes (all : bool) (reps : nat) (il : bool).
@@ -114,6 +117,14 @@ Definition ret (g : cv_shared) (t : nat) (l : cv_local) (r : bool) : cv_shared *
   let g1 := g_log g (ERet t (cur_op l) r) in
   (if reg l then g_stop g1 (stopreq g1) (cremove t (cbs g1)) else g1,
    {| ctodo := tl (ctodo l); cpc := CIdle; hu := hu l; reg := false |}).
+
+(* what the timed predicate forms return after a time-out, as written in the header now (tools/genmods/c07.py):
+   OT_Reeval = `return pred();` evaluated with U re-acquired; OT_Const b = a constant.  CWaitForPred stands for the
+   loop of both classes (condition_variable and condition_variable_any): a constant in either of them counts. *)
+Definition ot_value (ot : on_timeout) (v : bool) : bool := match ot with OT_Reeval => v | OT_Const b => b end.
+Definition ot_both (a b : on_timeout) : on_timeout := match a with OT_Reeval => b | OT_Const _ => a end.
+Definition op_on_timeout (o : cv_op) : on_timeout :=
+  match o with CWaitStopFor => cvs_on_timeout | _ => ot_both cv_on_timeout cva_on_timeout end.
 
 (* oracle: late = the deadline has passed when the clock is read *)
 Definition cv_tstep (isos : nat -> bool) (late : bool) (t : nat) (g : cv_shared) (l : cv_local)
@@ -189,10 +200,11 @@ Definition cv_tstep (isos : nat -> bool) (late : bool) (t : nat) (g : cv_shared)
           let l1 := l_hu l (cpc l) true in
           match cur_op l with
           | CWaitPred | CWaitStop => (g1, l_pc l1 CPredTest)
-          | CWaitForPred | CWaitStopFor => if sg then (g1, l_pc l1 CPredTest) else ret g1 t l1 (flag g)
+          | CWaitForPred | CWaitStopFor => (g1, l_pc l1 (if sg then CPredTest else CPredRet))
           | _ => ret g1 t l1 sg
           end
       end
+  | CPredRet => ret g t l (ot_value (op_on_timeout (cur_op l)) (flag g))
   | NLockI all reps il =>
       match ilock g with
       | Some _ => (g, l)
